@@ -201,9 +201,15 @@ def binders(root):
             kind = 'posonly' if p in a.fields['posonlyargs'] else 'param'
             b(p.fields['arg'], p, kind, scope='new', after=leaves(body), reaches_after=False, own=p)
         if c != 'Lambda':
-            b(f['name'], root, 'def', own=None)
+            # decorators, default values and annotations are evaluated in the enclosing scope before the name is (re)bound
+            before = leaves(f['decorator_list']) + leaves(a.fields['defaults']) + leaves([d for d in a.fields['kw_defaults'] if d is not None])
+            for p in params:
+                before.extend(leaves(p.fields.get('annotation')))
+            before.extend(leaves(f.get('returns')))
+            b(f['name'], root, 'def', before=before, own=None)
     elif c == 'ClassDef':
-        b(f['name'], root, 'class', own=None)
+        before = leaves(f['decorator_list']) + leaves(f['bases']) + leaves([k.fields['value'] for k in f['keywords']])
+        b(f['name'], root, 'class', before=before, own=None)
     elif c == 'Import':
         for al in f['names']:
             name = al.fields['asname'] or al.fields['name'].partition('.')[0]
